@@ -245,6 +245,7 @@ def check(db, rep):
     # ---------------- r7
     r7 = rep.rule('r7', 'RESET-TOTAL: every optional::value() reachable from ResetDependants inside the model classes is dominated by has_value() on the same object', 3)
     _reset_total(db, r7, reset_dep)
+    _value_sources(db, rep)
 
 
 # unguarded optional accesses on the reset path that are justified by an invariant (one reason each)
@@ -401,3 +402,110 @@ def _check_reset_body(db, f, rule):
         rule.violation('decision-table', f.loc(lp), '; '.join(problems))
     else:
         rule.ok('decision-table', '%d (same?, kind) cases evaluated: derived kinds reset value+flag, structures pruned/reset, base sets and the target skipped' % len(table), f.loc(lp))
+
+
+def _value_sources(db, rep):
+    """r9: the two representations of a base set (the interpretants' texts and the set of their identifiers) are written together on every path;
+    an element is kept in a structure only if its base set still has that interpretant, whatever the kind of the base (nominal or constant)."""
+    from engine.cfgq import paths_avoiding
+    from engine.evalmini import Interp, Obj, OutOfFragment, NOT_HANDLED
+    from rules import C03
+    r9 = rep.rule('r9', 'VALUE-SOURCES: SetTextInterpretationFor rewrites the element set of the base set on every path; CheckBasicElements keeps an element only if its base set (of any kind) has that interpretant', 2)
+    IS = 'ccl::semantic::InterpretationStorage'
+    f = db.fn(IS + '::SetTextInterpretationFor', required=False)
+    if f is None:
+        r9.broken('anchor vanished: InterpretationStorage::SetTextInterpretationFor')
+    else:
+        def writes(member):
+            out = []
+            for n in f.walk():
+                if n['k'] in ('CXXOperatorCallExpr', 'BinaryOperator') and n.get('op') == '=':
+                    kids = f.children(n) if n['k'] == 'BinaryOperator' else [f.stmts[a] for a in n.get('args', [])]
+                    if kids and any(x['k'] == 'MemberExpr' and x.get('member') == member for x in f.walk(kids[0])):
+                        p = f.position_of(n)
+                        if p is not None:
+                            out.append(p)
+            return out
+        succ, entry, exit_ = f.graph()
+        exits = [(p, '') for p, r in f.return_sites()] + [(exit_, '')]
+        problems = []
+        for member in ('textData', 'rsData'):
+            w = writes(member)
+            if not w or paths_avoiding(f, [entry], w, exits):
+                problems.append(member)
+        if problems:
+            r9.violation('SetTextInterpretationFor', '%s:%d' % (f.file, f.line), '%s is not rewritten on every path (e.g. a shortcut when the number of interpretants is unchanged): replacing {1:a,2:b} by {1:a,3:c} leaves the base set {1,2} while its texts say {1,3}' % ' / '.join(problems))
+        else:
+            r9.ok('SetTextInterpretationFor', 'texts and element set are both rewritten on every path', '%s:%d' % (f.file, f.line))
+    VF = 'ccl::semantic::rsValuesFacet'
+    g = db.fn(VF + '::CheckBasicElements', required=False)
+    if g is None:
+        r9.broken('anchor vanished: rsValuesFacet::CheckBasicElements')
+        return
+    Tm, type_hook = C03.type_hooks(db)
+    CST = {e['name']: e['val'] for e in db.enum('ccl::semantic::CstType')['enumerators']}
+    ST = {e['name']: e['val'] for e in db.enum('ccl::rslang::StructureType')['enumerators']}
+    bad, cases = None, 0
+    try:
+        for base, kind in (('X1', 'base'), ('C1', 'constant')):
+            for value, present in ((1, True), (4, False)):
+                for wrap in ('element', 'set', 'tuple'):
+                    cases += 1
+                    interps = {1, 2, 3}
+
+                    def on_call(it, fn, n, env, kind=kind):
+                        cs = n.get('cs') or ''
+                        last = cs.split('::')[-1]
+                        S = fn.stmts
+
+                        def obj():
+                            o = it.eval(fn, S[n['obj']], env) if 'obj' in n else None
+                            if isinstance(o, tuple) and len(o) == 2 and o[0] == 'ptr':
+                                o = o[1]
+                            return o
+                        if last == 'FindAlias':
+                            return 77
+                        if last == 'TextFor':
+                            return ('ptr', Obj(__kind__='texts'))
+                        if last == 'HasInterpretantFor':
+                            return it.eval(fn, S[n['args'][0]], env) in interps
+                        if last == 'GetRS':
+                            return Obj(type=CST[kind], uid=77)
+                        if last == 'Core' or last == 'RSLang':
+                            return Obj(__kind__='core')
+                        if cs.startswith('ccl::object::') and 'obj' in n:
+                            o = obj()
+                            if isinstance(o, Obj) and o.get('__kind__') == 'sd':
+                                v = o['v']
+                                if last == 'Structure':
+                                    return ST['basic' if isinstance(v, int) else 'tuple' if isinstance(v, tuple) else 'collection']
+                                if last in ('E', 'T'):
+                                    return o
+                                if last == 'B':
+                                    return Obj(__kind__='sd', v=v, elems=[Obj(__kind__='sd', v=x) for x in sorted(v)])
+                                if last == 'Value':
+                                    return v
+                                if last == 'IsEmpty':
+                                    return not v
+                                if last == 'Arity':
+                                    return len(v)
+                                if last == 'Component':
+                                    return Obj(__kind__='sd', v=v[it.eval(fn, S[n['args'][0]], env) - 1])
+                        return type_hook(it, fn, n, env)
+                    t = ('e', base)
+                    data, typ = value, t
+                    if wrap == 'set':
+                        data, typ = frozenset({1, value}), ('b', t)
+                    elif wrap == 'tuple':
+                        data, typ = (1, value), ('t', (t, t))
+                    this = Obj(core=Obj(__kind__='model'))
+                    res = Interp(db, on_call=on_call, max_steps=50000).call(g, [Obj(__kind__='sd', v=data), Tm(typ)], this)
+                    if bool(res) != present and bad is None:
+                        bad = 'a %s over the %s set %s containing element %d (interpretants of %s are {1,2,3}) is %s' % (wrap, kind, base, value, base, 'accepted' if res else 'rejected')
+    except OutOfFragment as e:
+        r9.broken('CheckBasicElements outside the evaluable fragment: %s' % e)
+        return
+    if bad:
+        r9.violation('CheckBasicElements', '%s:%d' % (g.file, g.line), bad + ': structures keep elements their base set no longer has')
+    else:
+        r9.ok('CheckBasicElements', 'an element is kept exactly when its base set has the interpretant, for nominal and constant bases (%d cases)' % cases, '%s:%d' % (g.file, g.line))
